@@ -178,4 +178,4 @@ def run(repo, seed, tier):
                     'typed (empty, literal, *, **, each parameter name with and without =), cursor at the end; '
                     'syntactically impossible prefixes skipped; every case is non-trivial' % (max_n, max_prior),
             'samples': [render_def(c[0]) + 'f(' + ''.join(t + ', ' for t, _ in c[1]) + c[2][0] for c in cases[:3]],
-            'violations': uniq[:10], 'violations_total': len(violations)}
+            'violations': violations[:300], 'violations_total': len(violations)}
